@@ -60,7 +60,7 @@ Section RangesW.
     end.
 
   (* func Get(AVC|HEVC)ProtectRanges(spsMap, ppsMap, sample, scheme), CURRENT text (2ef93b3).  Fuel: every iteration
-     advances pos by at least 4 (proved: C07WrapProofs.pr_loop_w_never_out_of_fuel) *)
+     advances pos by at least 4 (proved: C07WrapProofs.protect_ranges_w_terminates, C07_ranges_terminate) *)
   Definition protect_ranges_w (sample : list N) : res (list ssp) :=
     if lenN sample <? 4 then Err else pr_loop_w (S (length sample)) sample 0 0 0 [].
 End RangesW.
